@@ -63,6 +63,21 @@ except ImportError:
     out['syntax_error_propagates'] = False
 except SyntaxError:
     out['syntax_error_propagates'] = True
+# --- F6: NamedTemporaryFile(dir=, delete=False) creates a new file; os.replace moves it over the target as a whole
+import tempfile
+before = set(os.listdir(d))
+with tempfile.NamedTemporaryFile('w', dir=d, suffix='.tmp', delete=False) as tf:
+    tf.write('x = 1\n'); tf.write('y = 2\n')
+out['tempfile_is_new_and_kept'] = os.path.basename(tf.name) not in before and os.path.exists(tf.name)
+write('old = 0\n', 1000000500)
+st_tmp = os.stat(tf.name)
+os.replace(tf.name, p)
+out['replace_moves_whole_content'] = open(p).read() == 'x = 1\ny = 2\n' and not os.path.exists(tf.name)
+out['replace_keeps_stamp_of_source'] = int(os.stat(p).st_mtime) == int(st_tmp.st_mtime) and os.stat(p).st_size == st_tmp.st_size
+try:
+    os.remove(os.path.join(d, 'does_not_exist.pyc')); out['remove_missing_raises_FileNotFoundError'] = False
+except FileNotFoundError:
+    out['remove_missing_raises_FileNotFoundError'] = True
 print(json.dumps(out))
 '''
 
@@ -126,6 +141,9 @@ def main():
             for k, v in facts.items():
                 if v is not True:
                     out['failures'].append(dict(part='A', fact=k, value=v))
+        if '--facts-only' in sys.argv:
+            print(json.dumps(out))
+            return
         # ---------------- part B: definition histories.  Same-length generated sources: permuted widths.
         A = [('a', 'Int(1)'), ('b', 'Int(2)'), ('c', 'Data(3)')]
         B = [('a', 'Int(2)'), ('b', 'Int(1)'), ('c', 'Data(3)')]      # same generated length as A
